@@ -34,9 +34,9 @@ theorem downsample_roles :
 
 /-- output offsets: block index times the samples a full block contributes -/
 theorem offsets :
-    argOf "collapse" "extract_tim" "index" = some "ii*gulp" ∧
-    argOf "dedisperse" "dedisperse" "index" = some "ii*(gulp-max_delay)" ∧
-    argOf "fold" "fold" "index" = some "ii*(gulp-max_delay)" := by
+    argOf "collapse" "extract_tim" "index" = some "gulp*ii" ∧
+    argOf "dedisperse" "dedisperse" "index" = some "(gulp-max_delay)*ii" ∧
+    argOf "fold" "fold" "index" = some "(gulp-max_delay)*ii" := by
   decide
 
 /-- the loops that shift channels ask the plan for an overlap of `max_delay` and tell the kernel the same value;
